@@ -136,6 +136,7 @@ def module_phase(out, maxparts):
 def run(tier):
     out = common.Outcome('C09', tier)
     n = BOUNDS[tier]
+    runlib._JOB['long_tokens'] = True              # a fifth of the programs prints four-line texts with braces (the diff branch of the report)
     runlib._JOB['own_lineno_forms'] = True         # raising statements whose exception carries a line number of its own text
     out.rule = ('every program of <= %d parts over C09_Parts (23 part kinds) reachable in DocRun.tla x import ok/failing, one case per terminal state, '
                 'verbosity rotating 0..3; plus every failing <=2-part program embedded in a 3-doctest module run by doctest_module' % n)
